@@ -14,6 +14,7 @@ PROPERTY = "C06"
 META = {
     "level": "other",
     "bounds": [
+        "copies: Region.astype (copy True / False) and Region.copy of a quad8 / quad4 region with gradients and hessians on symbolic affine geometry keep h, dhdr, drdX, dXdr, dhdX, dV, d2hdrdr, d2hdXdX",
         "one cell with symbolic nodal coordinates = reference cell + offsets |e| <= 0.15: tri3, quad4, tet4 (quick), quad8, tri6, hex8 (thorough); 'valid mesh' = the library's own dV < 0 test is assumed False",
         "volume: sum of dV equals the exact integral of det(dX/dr) over the reference cell, integrated exactly from the symbolically traced element gradient (own polynomial integration; tolerance 1e-9 because "
         "Gauss points are floats); rigid-motion invariance with a symbolic rotation (t = tan(angle/2)) and translation; equal area for quad4 vs its split into two tri3",
@@ -321,6 +322,23 @@ def case_pairing(ctx, kind, concrete=False):
     ctx.equal("quadrature_integrates_gradient_products_exactly", np.array(got, dtype=object if ctx.sym else float), np.array(exp, dtype=object if ctx.sym else float), tol=1e-6 if kind == "tet10" else 1e-9, rtol_replay=1e-5 if kind == "tet10" else 1e-6)
 
 
+def case_copies(ctx, kind, copy=True):
+    """Region.astype / Region.copy of a region with gradients and hessians on symbolic affine geometry: every array of the new
+    region equals the one of the original (the cast is the identity on the reals); float32 copies are outside (rounding)"""
+    mesh = mesh_affine(ctx, kind)[0]
+    R = TEMPL[kind][1]
+    with ctx.assume_forks(False):
+        region = R(mesh, hess=True)
+        names = ["h", "dhdr", "drdX", "dXdr", "dhdX", "dV", "d2hdrdr", "d2hdXdX"]
+        orig = {n: np.array(np.asarray(getattr(region, n)), copy=True) for n in names}
+        cast = region.astype(object if ctx.sym else float, copy=copy)
+        dup = region.copy()
+    ctx.check_concrete("astype_copy_flag_respected", (cast is region) == (not copy))
+    for n in names:
+        ctx.equal("astype_keeps_%s" % n, np.asarray(getattr(cast, n)), orig[n])
+        ctx.equal("copy_keeps_%s" % n, np.asarray(getattr(dup, n)), orig[n])
+
+
 def case_families(ctx):
     """a straight-sided quad and its split into two triangles have the same area"""
     mesh = mesh_offset(ctx, "quad4")
@@ -350,4 +368,7 @@ def cases(tier):
     for k in ("quad8", "quad9", "tet10", "hex8", "hex20") + (("hex27",) if thorough else ()):
         out.append(("pairing", case_pairing, {"kind": k, "concrete": True, "max_paths": 8}))
     out.append(("families", case_families, {"max_paths": 8}))
+    out.append(("copies", case_copies, {"kind": "quad8", "copy": True, "max_paths": 8}))
+    out.append(("copies", case_copies, {"kind": "quad8", "copy": False, "max_paths": 8}))
+    out.append(("copies", case_copies, {"kind": "quad4", "copy": True, "max_paths": 8}))
     return out
